@@ -83,3 +83,18 @@ pub fn panic_text(e: Box<dyn std::any::Any + Send>) -> String {
         "<non-string panic>".into()
     }
 }
+
+thread_local! {
+    static TICKS: std::cell::Cell<i64> = std::cell::Cell::new(0);
+}
+/// A value expression with a side effect: successive calls return 1, 2, 3, ...
+/// A macro that evaluates a listed expression twice, or not at all, shows.
+pub fn tick() -> i64 {
+    TICKS.with(|t| {
+        t.set(t.get() + 1);
+        t.get()
+    })
+}
+pub fn reset_ticks() {
+    TICKS.with(|t| t.set(0));
+}
